@@ -18,6 +18,7 @@ import (
 	"runtime"
 	"sort"
 	"strconv"
+	"strings"
 	"sync"
 	"sync/atomic"
 	"testing"
@@ -33,7 +34,7 @@ const (
 	c07KnownFile = "/verif/.work/C07-known.txt"
 	c07KnownID   = "panic-unheard"
 	c07KnownID2  = "write-close-race"
-	c07KnownID3  = "foreach-panic-lost"
+	c07KnownID3  = "panic-lost-in-select"
 	c07Far       = 1000000 // ticks: a context deadline that is never reached
 )
 
@@ -664,8 +665,8 @@ func (r *c07Run) judge(res kit.BubbleResult) (v kit.Verdict) {
 	// channel" inside the reducer goroutine, whose recover then blocks in
 	// onceChan.write. Needs a reducer write at the very instant a cancel call
 	// completes (or the ctx.Done branch runs).
-	knownShape2 := false
-	if nPanics == 0 && r.returned {
+	knownShape2, writeAtFinish := false, false
+	if r.returned {
 		fin := map[time.Duration]bool{}
 		for _, e := range r.events {
 			if e.kind == "cancelret" {
@@ -673,13 +674,21 @@ func (r *c07Run) judge(res kit.BubbleResult) (v kit.Verdict) {
 			}
 		}
 		if r.out.kind == "err" && r.out.err == context.DeadlineExceeded {
+			// the caller took the ctx.Done branch: a write that passed the ctx check at
+			// that very instant stays blocked until cancel has drained the source
 			fin[r.tret] = true
+			ts := c.ticks(c.CtxAt)
+			if c.Ctx == "cancelled" {
+				ts = 0
+			}
+			fin[ts] = true
 		}
 		for _, e := range r.events {
 			if e.kind == "write" && fin[e.ts] {
-				knownShape2 = true
+				writeAtFinish = true
 			}
 		}
+		knownShape2 = writeAtFinish && nPanics == 0
 	}
 
 	// ---- the call returns
@@ -777,21 +786,29 @@ func (r *c07Run) judge(res kit.BubbleResult) (v kit.Verdict) {
 		v.NonTrivial = n >= w+1
 		if msg := r.disturbedOutcome(dist, cls); msg != "" {
 			v = v.Failf("%s; history: %v returned@%v", msg, r.events, r.tret)
-			// Known finding 3: ForEach's select chooses at random between a pending
-			// panic and the closed collector. Both can be ready together only when the
-			// generator's panic owns onceChan (blocked in write, source still open) and
-			// a mapper panic (dropped by the CAS) has stopped executeMappers, before
-			// the caller reaches its select.
-			if c.Entry == "foreach" && r.out.kind == "ok" {
-				gen, mapr := false, false
+			// Known finding 2, second face: the reducer's "send on closed channel"
+			// reaches panicChan while the caller has not yet entered its select, and
+			// is re-raised instead of the cancel error.
+			if re, ok := r.out.pv.(runtime.Error); ok && r.out.kind == "panic" && writeAtFinish &&
+				strings.Contains(re.Error(), "send on closed channel") {
+				v.Known = c07KnownID2
+			}
+			// Known finding 3: the caller's select (ForEach and mapReduceWithPanicChan)
+			// chooses at random between a pending panic and "finished" (collector /
+			// output closed). Both can be ready together only when the generator's
+			// panic owns onceChan (blocked in write, source still open) while a second
+			// panic, dropped by the CAS, lets the pipeline run to completion before the
+			// caller has reached its select.
+			if r.out.kind != "panic" {
+				gen, other := false, false
 				for _, e := range dist {
 					if e.kind == "panic" && e.src == "generator" {
 						gen = true
 					} else if e.kind == "panic" {
-						mapr = true
+						other = true
 					}
 				}
-				if gen && mapr {
+				if gen && other {
 					v.Known = c07KnownID3
 				}
 			}
